@@ -41,6 +41,9 @@ theorem NP_negate (v : Value) : NP (negate v) := by
 theorem NP_invert (v : Value) : NP (invert v) := by
   unfold invert; np
 
+theorem NP_condHolds (v : Value) : NP (condHolds v) := by
+  unfold condHolds; np
+
 theorem NP_dateTrunc (p : Bytes) (d s f : Int) : NP (dateTrunc p d s f) := by
   unfold dateTrunc; np
 
@@ -60,7 +63,7 @@ theorem NP_callFunction (O : Oracles) (f : Func) (args : List Value) : NP (callF
 
 macro "npb" : tactic => `(tactic| (repeat' (first
   | rfl | assumption
-  | exact NP_arith _ _ _ | exact NP_negate _ | exact NP_invert _ | exact NP_callFunction _ _ _
+  | exact NP_arith _ _ _ | exact NP_negate _ | exact NP_invert _ | exact NP_condHolds _ | exact NP_callFunction _ _ _
   | exact NP_castValue _ _ _ | exact NP_ofOption _ _ | exact NP_parseLit _ _ _
   | (apply NP_bind) | (apply NP_bind') | (intro _) | split | (dsimp only))))
 
